@@ -336,8 +336,12 @@ pub fn run_check(prop: &str, tier: &str) -> i32 {
         "C03" | "C05" | "C04" | "C08" | "C14" => run_sched_check(prop, tier),
         "C07" => {
             let rep = Reporter::new(prop, tier);
-            let c = sched_collect(&rep, prop, tier);
-            let r = sched_collect(&rep, "C07R", tier);
+            // the reader harness has few, long work items: run it alongside
+            let (c, r) = std::thread::scope(|sc| {
+                let hr = sc.spawn(|| sched_collect(&rep, "C07R", tier));
+                let c = sched_collect(&rep, prop, tier);
+                (c, hr.join().expect("reader harness collector"))
+            });
             let mut samples = c.samples.clone();
             samples.extend(r.samples.clone());
             if samples.is_empty() {
@@ -563,6 +567,7 @@ fn base_spec(prop: &str, hist: Vec<SOp>, cfg: Cfg) -> HistSpec {
         o_c08: false,
         o_c15: false,
         max_executions: 200_000,
+        lock_window: false,
     }
 }
 
@@ -710,6 +715,27 @@ pub fn sched_specs(prop: &str, tier: &str) -> Vec<HistSpec> {
                 vec![Sym::A, Sym::Aup, Sym::F, Sym::W, Sym::I, Sym::T, Sym::Alow, Sym::E, Sym::R],
                 vec![Sym::A, Sym::A, Sym::A, Sym::F, Sym::W, Sym::I, Sym::E, Sym::R, Sym::A, Sym::R],
             ];
+            // lock-window mode: the worker also parks inside its cache write-lock
+            // section, so reads are scheduled while the lock is held
+            let lw: Vec<Vec<Sym>> = if thorough {
+                vec![
+                    vec![Sym::A, Sym::F, Sym::R],
+                    vec![Sym::A, Sym::A, Sym::R],
+                    vec![Sym::A, Sym::A, Sym::F, Sym::R],
+                    vec![Sym::A, Sym::A, Sym::A, Sym::R],
+                    vec![Sym::A, Sym::F, Sym::A, Sym::R],
+                    vec![Sym::A, Sym::F, Sym::W, Sym::A, Sym::F, Sym::R],
+                ]
+            } else {
+                // a sync (flush or rotation) opens the window while a cached-only entry exists
+                vec![vec![Sym::A, Sym::F, Sym::R], vec![Sym::A, Sym::A, Sym::A, Sym::R]]
+            };
+            for h in lw {
+                let mut s = base_spec(prop, schedx::from_syms(&h), Cfg::records(3));
+                s.o_c07 = true;
+                s.lock_window = true;
+                out.push(s);
+            }
             for f in fam {
                 for (items, cap) in &caches {
                     let mut s = base_spec(prop, schedx::from_syms(&f), Cfg::records(3).with_cache(*items, *cap));
@@ -846,7 +872,7 @@ pub fn reader_specs(tier: &str) -> Vec<crate::readers::ReaderSpec> {
             vec![Sym::A, Sym::A, Sym::F, Sym::A, Sym::A, Sym::F],
         ]
     } else {
-        vec![vec![Sym::A, Sym::A, Sym::F], vec![Sym::A, Sym::A, Sym::F, Sym::A]]
+        vec![vec![Sym::A, Sym::A, Sym::F]]
     };
     let mut out = vec![];
     for sh in shapes {
@@ -871,7 +897,7 @@ fn reader_shard(tier: &str, shard: usize, of: usize) -> i32 {
     let mut vios: Vec<crate::report::Violation> = vec![];
     let mut machinery: Option<String> = None;
     let mut samples: Vec<Value> = vec![];
-    let budget_s: u64 = std::env::var("VX_SHARD_WALL_S").ok().and_then(|s| s.parse().ok()).unwrap_or(if tier == "thorough" { 1500 } else { 25 });
+    let budget_s: u64 = std::env::var("VX_SHARD_WALL_S").ok().and_then(|s| s.parse().ok()).unwrap_or(if tier == "thorough" { 1500 } else { 45 });
     let deadline = std::time::Instant::now() + Duration::from_secs(budget_s);
     let mut skipped = 0u64;
     for (i, s) in specs.iter().enumerate() {
